@@ -170,6 +170,43 @@ R2_KINDS = ['rev', 'strided', 'col', 'fcol', 'rows2', 'rows2T', 'bcast2', 'rows3
 R6_SCALES = ['1e-12', '1e-9', '1e-3', '1e3', '1e9', '1e12']
 NOT_LOOKABLE = ('rows2', 'rows2T', 'bcast2', 'rows3d')     # look-up by value needs scalar elements
 UNSIGNED = ('uint8', 'uint16', 'npscalars:uint16')
+# R15: families of DISTINCT values that a tolerance-based comparison (np.isclose / np.allclose with the default
+# atol=1e-8, rtol=1e-5, math.isclose, a rounded key, an absolute threshold) would identify
+R15_FAMS = ['tiny', 'rel', 'adj', 'dec12', 'thr']
+# R15: values returned by the repetitions: 'aff:ce:de' = 2^ce + o * 2^de for the SUM and the MISC result
+# (ce - de = 20: every sum, square and sum of squares is exact in binary64, the comparison stays exact);
+# 'm:...' = the MISC result only (the SUM result gets the plain integer): neighbouring doubles of 0.3,
+# 1 + o * 2^-40 (differences beyond the 12th decimal)
+R15_OUTS = ['aff:0:-20', 'aff:31:11', 'aff:-38:-58', 'm:adj', 'm:aff:0:-40', 'm:aff:31:-9']
+# R16: containers a caller can refill in place ('list' kinds: any length; arrays: same length)
+R16_KINDS = ['list', 'floatlist', 'int64', 'float64', 'strided', 'int16', 'close:rel:arr']
+
+
+def _bits(x):
+    import struct
+    return struct.unpack('<q', struct.pack('<d', float(x)))[0]
+
+
+def _from_bits(n):
+    import struct
+    return struct.unpack('<d', struct.pack('<q', n))[0]
+
+
+def close_value(fam, b):
+    """R15: an INJECTIVE map base integer -> float whose image is a cluster of distinct values that are
+    merely close (the model sees the base integers: it is a function of the exact value)"""
+    b = int(b)
+    if fam == 'tiny':      # magnitudes 1e-9 ... 1e-15: all "equal" to 0 and to each other for atol = 1e-8
+        return (1000 + b) * 10.0 ** -(12 + b % 7)
+    if fam == 'rel':       # 2.4e9, 2.4e9 + 200, ...: relative differences below 1e-5 (exact integers)
+        return 2.4e9 + 200.0 * b
+    if fam == 'adj':       # 0.3, 0.30000000000000004, ...: neighbouring doubles
+        return _from_bits(_bits(0.3) + b)
+    if fam == 'dec12':     # 1.5 + b * 2^-43: differences beyond the 12th decimal
+        return 1.5 + b * 2.0 ** -43
+    if fam == 'thr':       # around an absolute threshold of 1e-8, 1e-10 apart
+        return 1e-8 + (b - 5) * 1e-10
+    raise ValueError(fam)
 
 
 def _np():
@@ -220,6 +257,13 @@ def mat_container(kind, base):
     if kind.startswith('npscalars:'):
         t = np.dtype(kind.split(':')[1]).type
         return [t(b) for b in base], t
+    if kind.startswith('close:'):            # R15: distinct values that are merely close
+        parts = kind.split(':')
+        fam = parts[1]
+        if len(parts) > 2:
+            return np.array([close_value(fam, b) for b in base], dtype=np.float64), \
+                (lambda b: np.float64(close_value(fam, b)))
+        return [close_value(fam, b) for b in base], (lambda b: close_value(fam, b))
     if kind.startswith('scale:'):            # R6: the whole grid multiplied by a decimal factor
         parts = kind.split(':')
         f = float(parts[1])
@@ -304,6 +348,22 @@ class Mat:
         self.kind = {}
         self.inputs = []          # R3: (what, object handed to the library, snapshot at that time)
         self.af = case.get('argform')   # R8: seed of the argument-form choices (None: the plain form)
+        # R16: the caller keeps ONE object per role and refills it in place: one buffer per parameter
+        # (`refill`), one dictionary of fixed values, one 0-d array per fixed value / for the variation index
+        self.reuse = bool(m.get('reuse'))
+        self.share = list(m.get('share', []))      # R16: names that are handed the SAME container object
+        self.bufs = {}
+        self.fxdict = {}
+        self.fx0d = {}
+        self.idxbuf = None
+        self.nrefills = 0
+        self._sc = None
+        k = self.ok
+        self._aff = self._maff = None
+        if k.startswith('aff:'):
+            self._aff = self._maff = (Fraction(2) ** int(k.split(':')[1]), Fraction(2) ** int(k.split(':')[2]))
+        elif k.startswith('m:aff:'):
+            self._maff = (Fraction(2) ** int(k.split(':')[2]), Fraction(2) ** int(k.split(':')[3]))
 
     def pick(self, n):
         """R8: which of the n equivalent ways to make the next call (positional / keyword / default / ...)"""
@@ -315,15 +375,49 @@ class Mat:
     # parameters ---------------------------------------------------------
     def container(self, name, base, kind=None):
         kind = kind or self.pk.get(name, 'list')
-        obj, fn = mat_container(kind, base)
+        mate = [n for n in self.share if n != name and n in self.bufs] if name in self.share else []
+        if mate and self.kind.get(mate[0]) == kind and self.table.get(mate[0]) is not None \
+                and [self.table[mate[0]].get(elem_key(e)) for e in self.bufs[mate[0]]] == list(base):
+            # R16: the SAME container object in two roles (value list of two parameters)
+            obj, fn = self.bufs[mate[0]], self.elemfn[mate[0]]
+        else:
+            obj, fn = mat_container(kind, base)
         self.kind[name] = kind
         self.elemfn[name] = fn
         t = {}
         for b, e in zip(base, obj):
             t.setdefault(elem_key(e), b)
         self.table[name] = t
+        self.bufs[name] = obj
         self.inputs.append(('parameter %s (%s)' % (name, kind), obj, snap(obj)))
         return obj
+
+    def can_refill(self, name, n):
+        """R16: can the container handed over for `name` be refilled in place with n values?"""
+        np = _np()
+        obj = self.bufs.get(name)
+        if isinstance(obj, list):
+            return True
+        return isinstance(obj, np.ndarray) and obj.ndim == 1 and obj.flags.writeable and len(obj) == n
+
+    def refill(self, names, base):
+        """R16: the caller overwrites the contents of the container it handed over earlier (`buf[...] = new`,
+        `lst[:] = new`); NO library call is made. Every name bound to that object now carries the new values."""
+        obj = self.bufs[names[0]]
+        vals = [self.elemfn[names[0]](b) for b in base]
+        if isinstance(obj, list):
+            obj[:] = vals
+        else:
+            obj[...] = vals
+        self.nrefills += 1
+        for name in names:
+            assert self.bufs.get(name) is obj, 'R16 generator: %s is not bound to the refilled object' % name
+            t = {}
+            for b, e in zip(base, obj):
+                t.setdefault(elem_key(e), b)
+            self.table[name] = t
+        # the caller changed its own object: that is not a modification made by the library
+        self.inputs = [(w, o, snap(o) if o is obj else sn) for w, o, sn in self.inputs]
 
     def new_kind(self, i):
         return self.new[i % len(self.new)]
@@ -353,8 +447,37 @@ class Mat:
                 out[k] = mat_fixed(self.fk, e)
             else:
                 out[k] = v
+        if self.reuse:
+            # R16: ONE dictionary object (and one 0-d array per key) refilled before every look-up
+            np = _np()
+            d = self.fxdict
+            d.clear()
+            for k, v in out.items():
+                if self.fk == '0d' and isinstance(v, np.ndarray) and v.ndim == 0 and v.dtype.kind in 'if':
+                    buf = self.fx0d.get((k, v.dtype.str))
+                    if buf is None:
+                        buf = self.fx0d[(k, v.dtype.str)] = np.zeros((), dtype=v.dtype)
+                    buf[...] = v
+                    v = buf
+                d[k] = v
+            self.inputs = [t for t in self.inputs if t[1] is not d and not any(t[1] is b for b in self.fx0d.values())]
+            self.inputs.append(('fixed values %r (reused dictionary)' % (fx,), d, snap(d)))
+            return d
         self.inputs.append(('fixed values %r' % (fx,), out, snap(out)))
         return out
+
+    def scribble(self):
+        """R16 (iii): the caller modifies the argument right after the call"""
+        if self.reuse and self.fxdict:
+            d = self.fxdict
+            self.inputs = [t for t in self.inputs if t[1] is not d]
+            for k in list(d):
+                v = d[k]
+                if any(v is b for b in self.fx0d.values()):
+                    v[...] = -12345
+                else:
+                    d[k] = 'scribbled'
+            d['zz_scribble'] = 1
 
     # repetitions --------------------------------------------------------
     def repmax(self, k):
@@ -368,6 +491,11 @@ class Mat:
         if self.ik == 'str':
             return str(i)
         if self.ik == '0d':
+            if self.reuse:                     # R16: ONE 0-d index array refilled before every call
+                if self.idxbuf is None:
+                    self.idxbuf = np.zeros((), dtype=np.int64)
+                self.idxbuf[...] = i
+                return self.idxbuf
             return np.array(i)
         if self.ik == 'bool':
             return bool(i) if i in (0, 1) else i
@@ -397,25 +525,78 @@ class Mat:
             return float(o) * 2.0 ** int(k[3:])
         if k.startswith('dec:'):
             return o * float(k[4:])
+        if self._aff is not None:              # R15: close but distinct values, exactly representable
+            return float(self._aff[0] + o * self._aff[1])
+        if k.startswith('m:'):                 # R15: only the MISC result carries the close values
+            return o
         raise ValueError(k)
 
-    def _scale(self):
+    def out_misc(self, o):
+        """the value of the MISCTYPE result of the repetition with outcome `o`"""
         k = self.ok
-        if k == 'mixhalf':
-            return Fraction(1, 2)
-        if k.startswith('p2:'):
-            return Fraction(2) ** int(k[3:])
-        if k.startswith('dec:'):
-            return Fraction(float(k[4:]))
-        return Fraction(1)
+        if k == 'm:adj':
+            return close_value('adj', o)
+        if self._maff is not None:
+            return float(self._maff[0] + o * self._maff[1])
+        return self.out(o)
 
-    def base_num(self, x, power=1):
-        """the base (unscaled) integer behind a stored number; comparisons are RELATIVE to the scale"""
+    def base_misc(self, x):
+        """the base integer behind a stored MISC value (exact)"""
+        if self.ok == 'm:adj':
+            try:
+                return _bits(x) - _bits(0.3) if isinstance(x, float) else repr(x)
+            except Exception:
+                return repr(x)
+        if self._maff is not None:
+            return self._unaff(x, self._maff, 1, 1, None)
+        return self.base_num(x)
+
+    def _unaff(self, x, cd, power, n, s):
+        """base integer behind a sum (power 1) / a sum of squares (power 2) of n values c + o * d; exact"""
+        c, d = cd
+        try:
+            f = Fraction(int(x)) if isinstance(x, (int, _np().integer)) else Fraction(float(x))
+            if power == 1:
+                q = (f - n * c) / d
+            else:
+                q = (f - n * c * c - 2 * c * d * s) / (d * d)
+        except Exception:
+            return repr(x)
+        return int(q) if q.denominator == 1 else repr(x)
+
+    def _scale(self):
+        if self._sc is None:
+            k = self.ok
+            if k == 'mixhalf':
+                self._sc = Fraction(1, 2)
+            elif k.startswith('p2:'):
+                self._sc = Fraction(2) ** int(k[3:])
+            elif k.startswith('dec:'):
+                self._sc = Fraction(float(k[4:]))
+            else:
+                self._sc = Fraction(1)
+        return self._sc
+
+    def base_num(self, x, power=1, n=None, s=None):
+        """the base (unscaled) integer behind a stored number; comparisons are RELATIVE to the scale.
+        `n` (number of merged values) and `s` (their base sum) are needed by the affine R15 kinds only."""
+        if self._aff is not None:
+            return self._unaff(x, self._aff, power, n, s) if n is not None else repr(x)
+        sc = self._scale()
+        if sc == 1:
+            # (fast path, same answer: an integral number is shown as that integer, anything else verbatim)
+            if isinstance(x, (int, _np().integer)):
+                return int(x)
+            try:
+                fl = float(x)
+                return int(fl) if fl == int(fl) else repr(x)
+            except Exception:
+                return repr(x)
         try:
             f = Fraction(int(x)) if isinstance(x, (int, _np().integer)) else Fraction(float(x))
         except Exception:
             return repr(x)
-        q = f / self._scale() ** power
+        q = f / sc ** power
         r = round(q)
         if q == r or (self.ok.startswith('dec:') and abs(q - r) <= Fraction(1, 10 ** 9) * max(1, abs(r))):
             return int(r)
@@ -471,9 +652,10 @@ def _stat(res, j, mat=None):
     (type and scale of the values `_run_simulation` returned are undone; tolerance relative to the scale)"""
     mat = mat or Mat({})
     s, ra, mi, tk, sk = (res[n][j] for n in ('sum', 'ratio', 'misc', 'tok', 'num_skipped_reps'))
-    return '/'.join([str(mat.base_num(s._value)), str(mat.base_num(s._result_squared_sum, 2)),
+    sb = mat.base_num(s._value, 1, s.num_updates)
+    return '/'.join([str(sb), str(mat.base_num(s._result_squared_sum, 2, s.num_updates, sb)),
                      _int(s.num_updates), _int(ra._value), _int(ra._total), _int(ra.num_updates),
-                     str(mat.base_num(mi._value)), _int(tk._value)]), _int(sk._value)
+                     str(mat.base_misc(mi._value)), _int(tk._value)]), _int(sk._value)
 
 
 # ------------------------------------------------------------------ extra results: every observable of a Result
@@ -565,8 +747,9 @@ def build_extras(res, case, a, mat=None, callno=0):
 
 
 def _frac(x):
-    f = Fraction(x) if isinstance(x, (int, float)) else Fraction(float(x))
-    return '%d_%d' % (f.numerator, f.denominator)
+    if isinstance(x, int):
+        return '%d_1' % x
+    return '%d_%d' % float(x).as_integer_ratio()      # (lowest terms, positive denominator: as Fraction(x))
 
 
 def rcanon(r):
@@ -633,6 +816,14 @@ def expected_extras(case, succ):
         out.append('%s%d<%s,%d,%d,%s,%s,%s,%s>' % (ty, 1 if acc else 0, v_s, total, n, _frac(rsum), _frac(rsq),
                                                     '.'.join(str(x) for x in vl), '.'.join(str(x) for x in tl)))
     return '~' + ''.join(out)
+
+
+def expected_main(succ):
+    """first principles: squares / num_updates of the SUM result, value / total / num_updates of the RATIO
+    result and the MISC value after the successful repetitions `succ` (base values, in execution order)"""
+    n = len(succ)
+    return [str(sum(a * a for a in succ)), str(n), str(sum(abs(a) % 5 for a in succ)), str(8 * n), str(n),
+            str(succ[-1]) if succ else '0']
 
 
 def gen_xr(rng, n=None):
@@ -756,7 +947,7 @@ def make_runner(case, mat=None, content=None, repmax=None):
             r = SimulationResults()
             adders = [lambda: r.add_new_result('sum', Result.SUMTYPE, mat.out(o)),
                       lambda: r.add_new_result('ratio', Result.RATIOTYPE, abs(o) % 5, 8),
-                      lambda: r.add_new_result('misc', Result.MISCTYPE, mat.out(o)),
+                      lambda: r.add_new_result('misc', Result.MISCTYPE, mat.out_misc(o)),
                       lambda: r.add_new_result('tok', Result.SUMTYPE, 1 << c)]
             if case.get('xorder') is not None:
                 sh = (case['xorder'] + c) % 4
@@ -772,7 +963,7 @@ def make_runner(case, mat=None, content=None, repmax=None):
 
         def _keep_going(self, current_params, current_sim_results, current_rep):
             pos = max(current_params.unpack_index, 0)
-            sm = mat.base_num(current_sim_results['sum'][-1]._value)
+            sm = mat.base_num(current_sim_results['sum'][-1]._value, 1, current_sim_results['sum'][-1].num_updates)
             v = eval_rule(rule_for(case, pos), sm,
                           current_sim_results['num_skipped_reps'][-1]._value, current_rep)
             self.events.append(('keep', current_params.unpack_index, sm,
@@ -824,11 +1015,12 @@ def diff_obs(a, b, ignore=()):
     return [k for k in a if k not in ignore and a[k] != b[k]]
 
 
-def run_op(runner, op, tmp):
-    """one simulate() / simulate(index) call; returns (canonical part, observation)"""
+def run_op(runner, op, tmp, before=None):
+    """one simulate() / simulate(index) call; returns (canonical part, observation). `before`: the observation
+    made after the previous call when nothing happened in between (saves observing twice)"""
     start = len(runner.calllog)
     estart = len(runner.events)
-    before = observe(runner, tmp)
+    before = before or observe(runner, tmp)
     status = 'ok'
     try:
         call_simulate(runner, op)
@@ -844,7 +1036,7 @@ def run_op(runner, op, tmp):
         '|'.join('%s%s/%s' % (st, x, sk) for (st, sk), x in zip(stats, after['xstats'])),
         '|'.join('%d:%d:%s:%s%s' % ((i,) + store[i]) for i in sorted(store)))
     ob = {'status': status, 'calls': calls, 'events': runner.events[estart:], 'reps': runner.runned_reps,
-          'stats': stats, 'xstats': after['xstats'], 'store': dict(store)}
+          'stats': stats, 'xstats': after['xstats'], 'store': dict(store), 'after': after}
     if status not in ('ok', 'Exhausted', 'SkipThisOne'):
         # R4: a rejected call must leave every observable as it was
         ob['rejected_changed'] = diff_obs(before, after, ignore=('results_id',))
@@ -864,8 +1056,10 @@ def run_impl(case, scratch):
             runner.partial_results_folder = None
         parts = []
         obs = {'ops': []}
+        last = None
         for op in case['ops']:
-            part, ob = run_op(runner, op, tmp)
+            part, ob = run_op(runner, op, tmp, last)
+            last = ob.pop('after')
             parts.append(part)
             obs['ops'].append(ob)
         looks = []
@@ -884,6 +1078,7 @@ def run_impl(case, scratch):
             ch = diff_obs(before, observe(runner, tmp, with_store=False))
             if ch:
                 obs.setdefault('lookup_changed_state', []).append((fx, ch))
+            mat.scribble()          # R16 (iii): the argument is modified right after the call
         obs['inputs_mutated'] = [w for w, o, sn in mat.inputs if snap(o) != sn]
         obs['returned_changed'] = [w for w, o, sn in returned if snap(o) != sn]
         return ' ; '.join(parts) + ' ; look=' + '/'.join(looks), obs
@@ -1000,8 +1195,18 @@ def hist_line(case):
     vals = '|'.join(','.join(str(v) for v in case['vals'][n]) for n in names)
     outs = ','.join('s' if o == 's' else str(o) for o in case['outs'])
     return 'hist names=%s vals=%s repmax=%d keep=%s outs=%s ops=%s' % (
-        ','.join(names), vals, case['repmax'], ';'.join(case['keep']), outs, ','.join(case['ops'])) \
+        ','.join(names), vals, case['repmax'], ';'.join(case['keep']), outs,
+        ','.join(m for op in case['ops'] for m in model_ops(op))) \
         + (' xr=' + xr_token(case) if case.get('xr') else '')
+
+
+def model_ops(op):
+    """the model sees CONTENT: refilling in place the container bound to the parameters a, b (R16, no library
+    call at all) is, for the model, the replacement of their value lists"""
+    if op.startswith('pfill:'):
+        t = op.split(':')
+        return ['padd:%s:%s' % (n, t[2]) for n in t[1].split('+')]
+    return [op]
 
 
 def parse_hop(op):
@@ -1021,6 +1226,8 @@ def parse_hop(op):
     t = op.split(':')
     if t[0] == 'padd':
         return ('padd', t[1], [int(x) for x in t[2].split('.') if x])
+    if t[0] == 'pfill':
+        return ('pfill', t[1].split('+'), [int(x) for x in t[2].split('.') if x])
     if t[0] == 'pscalar':
         return ('pscalar', t[1], int(t[2]))
     if t[0] == 'prem':
@@ -1041,6 +1248,9 @@ def apply_content(content, hop, repmax=None, file=True):
     d, u = content
     if hop[0] == 'padd':
         d[hop[1]] = list(hop[2])
+    elif hop[0] == 'pfill':
+        for nm in hop[1]:
+            d[nm] = list(hop[2])
     elif hop[0] == 'pscalar':
         d[hop[1]] = hop[2]
     elif hop[0] == 'prem':
@@ -1072,6 +1282,10 @@ def query_params(p, res, mfx, with_results, mat):
         names = sorted(p._unpacked_parameters_set)
         out['combos'] = [[mat.canon(n, c[n]) for n in names] for c in lst]
         out['idx'] = [c.unpack_index for c in lst]
+        if mat.reuse and names:
+            # R16: the variations handed out now are values: a later refill of the caller's container must
+            # not change what they carry
+            out['children'] = [(c, names, [elem_key(c[n]) for n in names]) for c in lst[:6]]
     except Exception as e:
         out['error'] = type(e).__name__
         return out
@@ -1189,6 +1403,7 @@ def run_hist_impl(case, scratch):
         res_content = None
         returned = []      # (what, object returned earlier, snapshot then)
         held = []          # (results object, materialised fixed, answer then)
+        kept_children = []  # R16: (variation handed out earlier, names, exact values then)
         nnew = 0
         for op in case['ops']:
             hop = parse_hop(op)
@@ -1200,11 +1415,13 @@ def run_hist_impl(case, scratch):
                     # R7: a freshly built runner with the current configuration, same remaining outcomes
                     tmat = Mat(case)
                     tmat.kind = dict(mat.kind)
+                    tmat.share, tmat.reuse = [], False       # (new containers holding a copy of the contents)
                     tw = make_runner(case, tmat, content=copy_content(content), repmax=repmax)
                     tw.pos = runner.pos
                     tpart, tob = run_op(tw, 'all', tmp2)
                     twin = (tpart, tob['calls'])
                 part, ob2 = run_op(runner, op if hop[0] == 'all' else 'single:%d' % hop[1], tmp)
+                ob2.pop('after', None)
                 ob.update(ob2)
                 ob['twin'] = twin
                 ob['part'] = part
@@ -1241,12 +1458,15 @@ def run_hist_impl(case, scratch):
                             ans = ('ok', [int(x) for x in v])
                         except BaseException as e:
                             ans = ('error', type(e).__name__)
-                        held.append((runner.results, mfx, ans))
+                        held.append((runner.results, {k2: (v2.copy() if isinstance(v2, np.ndarray) else v2)
+                                                      for k2, v2 in mfx.items()}, ans))
                         part = 'h=' + _show_pack(ans)
                 else:
                     q = query_params(runner.params, runner.results, mfx, simulated, mat)
+                    kept_children.extend(q.pop('children', []))
                     fmat = Mat(case)
                     fmat.kind = dict(mat.kind)
+                    fmat.share, fmat.reuse = [], False
                     fresh = SimulationParameters()
                     fresh.add(FIXED_EXTRA, FIXED_EXTRA_VALUE)
                     for k in sorted(content[0]):
@@ -1264,6 +1484,7 @@ def run_hist_impl(case, scratch):
                         # ... i.e. the content at the time of the last simulate()
                         rmat = Mat(case)
                         rmat.kind = dict(res_content[1])
+                        rmat.share, rmat.reuse = [], False
                         fresh2 = SimulationParameters()
                         fresh2.add(FIXED_EXTRA, FIXED_EXTRA_VALUE)
                         for k in sorted(res_content[0][0]):
@@ -1296,6 +1517,14 @@ def run_hist_impl(case, scratch):
                 ch = diff_obs(before, observe(runner, tmp, with_store=False))
                 if ch:
                     ob['lookup_changed_state'] = ch
+                mat.scribble()          # R16 (iii): the argument is modified right after the call
+            elif hop[0] == 'pfill':
+                # R16: the caller refills, in place, the container it handed over earlier; no library call
+                mat.refill(hop[1], hop[2])
+                apply_content(content, hop)
+                part = ' ; '.join('p=ok' for _ in hop[1])
+                ob['status'] = 'ok'
+                ob['refilled'] = list(hop[1])
             else:
                 before = observe(runner, tmp, with_store=False)
                 status = 'ok'
@@ -1338,6 +1567,10 @@ def run_hist_impl(case, scratch):
             obs['held'].append((ans, now))
             helds.append(_show_pack(now))
         parts.append('held=' + '|'.join(helds))
+        obs['children_changed'] = [
+            (c.unpack_index, names) for c, names, keys in kept_children
+            if [elem_key(c[n]) if n in c.parameters else None for n in names] != keys][:3]
+        obs['nrefills'] = mat.nrefills
         return ' ; '.join(parts), obs
     finally:
         shutil.rmtree(tmp, ignore_errors=True)
@@ -1352,6 +1585,7 @@ def _pseudo(case, content):
 
 
 HIST_CALLS = {'padd': 'SimulationParameters.add', 'pscalar': 'SimulationParameters.add',
+              'pfill': 'SimulationParameters.add',
               'prem': 'SimulationParameters.remove', 'punp': 'SimulationParameters.set_unpack_parameter',
               'all': 'SimulationRunner.simulate', 'single': 'SimulationRunner.simulate',
               'q': 'SimulationParameters.get_pack_indexes', 'hq': 'SimulationResults.get_result_values_list'}
@@ -1419,7 +1653,7 @@ def oracle_hist(case, obs):
             emit('SimulationRunner.simulate', 'R11:non-mutating-call-changed-state',
                  'after %r: %s changed %r' % (recent, ob['nonmutating_changed'][0][0], ob['nonmutating_changed'][0][1]))
             return out
-        if k in ('padd', 'pscalar', 'prem', 'punp'):
+        if k in ('padd', 'pscalar', 'prem', 'punp', 'pfill'):
             mutated = True
             continue
         if k in ('all', 'single'):
@@ -1490,6 +1724,9 @@ def oracle_hist(case, obs):
             return out
     if obs.get('returned_changed'):
         emit('SimulationParameters.get_pack_indexes', 'R3:returned-object-changed', '%r' % obs['returned_changed'][:3])
+    if obs.get('children_changed'):
+        emit('SimulationParameters.get_unpacked_params_list', 'R16:earlier-variation-changed-by-later-refill',
+             'variations handed out earlier no longer carry the values they had: %r' % (obs['children_changed'],))
     for then, now in obs.get('held', []):
         if then != now:
             emit('SimulationResults.get_result_values_list', 'R3:held-results-object-changed',
@@ -1780,6 +2017,45 @@ def gen_rcase(rng, rclass):
         if c['kind'] != 'grid':
             c['xr'] = ['M1:1:ctor', 'M1:2:ctor', 'M0:1:ctor', 'S1:1:ctor', 'S1:2:ctor', 'R1:1:ctor', 'R1:2:ctor',
                        'C1:1:ctor', 'C1:2:ctor'][:rng.randint(3, 9)]
+    elif rclass == 'R15':
+        # distinct values that are merely close: the grid, the replacement lists, the fixed values of the
+        # look-ups (present values, and absent ones next to a present one) and the values the repetitions return
+        fam = rng.choice(R15_FAMS)
+        kind = 'close:%s%s' % (fam, ':arr' if rng.chance(0.5) else '')
+        mat['params'] = {nm: kind for nm in c['names']}
+        mat['new'] = [kind]
+        mat['fixed'] = rng.choice(['same', 'same', 'pyfloat', 'np.float64', '0d'])
+        mat['outs'] = rng.choice(R15_OUTS)
+        r15_rewrite(rng, c)
+    elif rclass == 'R16':
+        # argument identity and buffer reuse: ONE container per parameter refilled in place between the calls
+        # (sometimes the same container for two parameters), ONE dictionary of fixed values (and one 0-d array per
+        # value) refilled before every look-up and scribbled on right after it, ONE 0-d index array
+        mat['reuse'] = True
+        mat['params'] = {nm: rng.choice(R16_KINDS) for nm in c['names']}
+        mat['new'] = [rng.choice(R16_KINDS) for _ in range(3)]
+        mat['fixed'] = rng.choice(['same', '0d', '0d', 'pyfloat'])
+        mat['index'] = rng.choice(['0d', '0d', 'int'])
+        if len(c['names']) >= 2 and rng.chance(0.35):
+            a, b = c['names'][0], c['names'][1]       # the SAME container object for two parameters
+            c['vals'][b] = list(c['vals'][a])
+            mat['params'][b] = mat['params'][a]
+            mat['share'] = [a, b]
+        if c['kind'] == 'sim':
+            nvar = 1
+            for nm in c['names']:
+                nvar *= len(c['vals'][nm])
+            if rng.chance(0.6):           # several simulate(index) calls with the one index buffer
+                c['file'] = True
+                c['ops'] = ['single:%d' % rng.randint(0, max(nvar - 1, 0)) for _ in range(rng.randint(2, 4))] \
+                    + [rng.choice(['all', 'single:0'])]
+            c['look'] = gen_looks(rng, c['names'], c['vals'], rng.randint(3, 4))
+            need = min(400, (c['repmax'] + 3) * max(nvar, 1) * len(c['ops']) * 2 + 6)
+            c['outs'] = c['outs'] + [rng.randint(-3, 6) for _ in range(need - len(c['outs']))]
+        if c['kind'] == 'hist':
+            r16_rewrite_hist(rng, c, mat)
+        elif c['kind'] == 'grid':
+            c['look'] = gen_looks(rng, c['names'], c['vals'], rng.randint(2, 4))
     if c['kind'] == 'grid':
         mat.pop('outs', None)
         mat.pop('repmax', None)
@@ -1810,6 +2086,122 @@ def gen_rcase(rng, rclass):
             c['look'] = [[(k2, v2) for k2, v2 in fx if k2 not in bad] or [(FIXED_EXTRA, FIXED_EXTRA_VALUE)]
                          for fx in c['look']]
     return c
+
+
+def _neighbour(rng, v, taken):
+    """a base value next to v (its image is the closest other member of the cluster) that is not in `taken`"""
+    for dv in rng.choice([[1, -1, 2], [-1, 1, 2], [2, 1, -1]]):
+        if v + dv >= 0 and v + dv not in taken:
+            return v + dv
+    return None
+
+
+def r15_rewrite(rng, c):
+    """R15: replacement lists of the SAME length whose elements are neighbours of the old ones (a setter that
+    skips 'unchanged' values by a tolerance would ignore them); look-ups by the neighbour of a listed value
+    (present or absent: an absent one must be refused, not resolved to its neighbour)"""
+    def near_fixed(pairs, d):
+        out = []
+        for k2, v2 in pairs:
+            if isinstance(d.get(k2), list) and v2 in d[k2] and rng.chance(0.5):
+                w = _neighbour(rng, v2, [])
+                v2 = v2 if w is None else w
+            out.append((k2, v2))
+        return out
+
+    if c['kind'] != 'hist':
+        c['look'] = [near_fixed(fx, c['vals']) for fx in c['look']] \
+            + [near_fixed(fx, c['vals']) for fx in gen_looks(rng, c['names'], c['vals'], 2)]
+        return
+    ops = []
+    for op in c['ops']:
+        t = op.split(':')
+        if t[0] == 'padd' and rng.chance(0.75):
+            d, u = content_after(c['names'], c['vals'], ops, c['repmax'])
+            old = d.get(t[1])
+            if isinstance(old, list) and old:
+                new = list(old)
+                for j in range(len(new)):
+                    if rng.chance(0.6):
+                        w = _neighbour(rng, new[j], new)
+                        if w is not None:
+                            new[j] = w
+                if new != old:
+                    op = 'padd:%s:%s' % (t[1], '.'.join(str(x) for x in new))
+        elif t[0] in ('q', 'hq'):
+            d, u = content_after(c['names'], c['vals'], ops, c['repmax'])
+            pairs = [(x.split(':')[0], int(x.split(':')[1])) for x in op.split(':', 1)[1].split('+') if x]
+            # (values of the lists as they are NOW: the generator of the history chose them before the rewrite)
+            pairs = [(k2, rng.choice(d[k2]) if isinstance(d.get(k2), list) and d[k2] and k2 in u and v2 not in d[k2]
+                      and rng.chance(0.8) else v2) for k2, v2 in pairs]
+            op = t[0] + ':' + '+'.join('%s:%d' % kv for kv in near_fixed(pairs, d))
+        ops.append(op)
+    c['ops'] = ops
+
+
+def r16_rewrite_hist(rng, c, mat):
+    """R16: wherever the history replaces the value list of a parameter the caller refills, in place, the
+    container it handed over (`pfill`; arrays: same length) instead of handing over a new one; further refills
+    right before simulate() calls and look-ups. Tracks which names are bound to which container object."""
+    token, nxt = {}, [0]
+
+    def fresh():
+        nxt[0] += 1
+        return nxt[0]
+    for nm in c['names']:
+        token[nm] = fresh()
+    if mat.get('share'):
+        token[mat['share'][1]] = token[mat['share'][0]]
+    kindof = dict(mat['params'])
+    nnew = 0
+    ops = []
+
+    def group(nm, d):
+        return [n for n in sorted(token) if token[n] == token[nm] and isinstance(d.get(n), list)]
+
+    def fit(vals, nm, d):
+        """the new values, cut / padded to the length an array container can take"""
+        if kindof[nm] in ('list', 'floatlist'):
+            return vals
+        n = len(d[nm])
+        vals = vals[:n]
+        spare = [v for v in list(range(0, 15)) + [41, 42, 43, 44] if v not in vals]
+        rng.shuffle(spare)
+        return vals + spare[:n - len(vals)]
+
+    for op in c['ops']:
+        t = op.split(':')
+        d, u = content_after(c['names'], c['vals'], ops, c['repmax'])
+        if t[0] in ('all', 'q', 'hq') and rng.chance(0.4):
+            bound = [n for n in sorted(u) if n in token and isinstance(d.get(n), list) and d[n]]
+            if bound:
+                nm = rng.choice(bound)
+                vals = list(d[nm])
+                rng.shuffle(vals)
+                if rng.chance(0.5):
+                    vals[rng.below(len(vals))] = rng.choice([v for v in range(15, 30)])
+                ops.append('pfill:%s:%s' % ('+'.join(group(nm, d)), '.'.join(str(x) for x in vals)))
+                d, u = content_after(c['names'], c['vals'], ops, c['repmax'])
+        if t[0] == 'padd':
+            nm = t[1]
+            vals = [int(x) for x in t[2].split('.') if x]
+            if nm in token and isinstance(d.get(nm), list):
+                vals = fit(vals, nm, d)
+                if (vals or kindof[nm] in ('list', 'floatlist')) and rng.chance(0.9):
+                    ops.append('pfill:%s:%s' % ('+'.join(group(nm, d)), '.'.join(str(x) for x in vals)))
+                    continue
+            token[nm] = fresh()
+            kindof[nm] = mat['new'][nnew % len(mat['new'])]
+            nnew += 1
+        elif t[0] in ('prem', 'pscalar'):
+            token.pop(t[1], None)
+        elif t[0] in ('q', 'hq'):
+            pairs = [(x.split(':')[0], int(x.split(':')[1])) for x in op.split(':', 1)[1].split('+') if x]
+            pairs = [(k2, rng.choice(d[k2]) if isinstance(d.get(k2), list) and d[k2] and k2 in u and v2 not in d[k2]
+                      and rng.chance(0.85) else v2) for k2, v2 in pairs]
+            op = t[0] + ':' + '+'.join('%s:%d' % kv for kv in pairs)
+        ops.append(op)
+    c['ops'] = ops
 
 
 def derived_objects_check(case, mat, p, lst, names):
@@ -1894,6 +2286,7 @@ def run_grid_impl(case):
         except BaseException as e:
             packs.append('error:' + type(e).__name__)
             obs['pack'].append(('error', type(e).__name__))
+        mat.scribble()              # R16 (iii): the argument is modified right after the call
     # R3/R4: look-ups (accepted or rejected) change nothing; inputs and earlier outputs stay as they were
     obs['state_changed'] = before != (snap(dict(p.parameters)), sorted(p._unpacked_parameters_set))
     obs['inputs_mutated'] = [w for w, o, sn in mat.inputs if snap(o) != sn]
@@ -2116,6 +2509,13 @@ def oracle_sim(case, obs, cfgs=None):
                                     'variation %d: stored sum=%s tok=%s, merged sum=%d tok=%d'
                                     % (pos, f[0], f[7], s, tok))
                         break
+                    exp = expected_main(done_hist[pos])
+                    if f[1:7] != exp:
+                        emit(call, 'stored-result-not-merge',
+                             'variation %d after the successful repetitions %r: stored squares / updates / ratio '
+                             'value / total / updates / misc = %s, fold of the repetitions %s'
+                             % (pos, done_hist[pos], '/'.join(f[1:7]), '/'.join(exp)))
+                        break
                 # every observable of every stored Result = fold of the successful repetitions
                 for j, (pos, s, tok, rep) in enumerate(done):
                     exp = expected_extras(case, done_hist[pos])
@@ -2136,6 +2536,10 @@ def oracle_sim(case, obs, cfgs=None):
                 if sv is None or sv[0] != rep or sv[2].split('/')[0] != str(s) or sv[2].split('/')[7] != str(tok):
                     emit(call, 'stored-result-not-merge', 'variation %d: partial file %r, merged '
                                 'sum=%d tok=%d rep=%d' % (pos, sv, s, tok, rep))
+                elif sv[2].split('/')[1:7] != expected_main(done_hist[pos]):
+                    emit(call, 'stored-result-not-merge',
+                         'variation %d after the successful repetitions %r: partial file holds %s, fold of the '
+                         'repetitions %s' % (pos, done_hist[pos], sv[2], '/'.join(expected_main(done_hist[pos]))))
                 elif len(sv) > 3 and sv[3] != expected_extras(case, done_hist[pos]):
                     emit(call, 'stored-result-observables-not-fold',
                          'variation %d after the successful repetitions %r: partial file holds %s, fold of the '
